@@ -707,6 +707,15 @@ func tthHostileCases(c *Ctx) []json.RawMessage {
 			add(TTHCase{F: (bl+pad)/4 - 1, BLen: bl + pad, Body: body, Total: 50})
 		}
 	}
+	// padding runs of every length 0..40 in front of, between and behind sections (a decoder may skip padding in words)
+	for k := 0; k <= 40; k++ {
+		pad := strings.Repeat("00", k)
+		for _, body := range []string{"0000" + pad + sec["s1"], "0000" + pad + sec["i1"], "0000" + pad + sec["a1"] + sec["i2"], "0000" + sec["i1"] + pad + sec["s2"], "0000" + sec["a1"] + pad + sec["i1"] + pad, "0000" + sec["s1"] + pad + "11" + "0010" + "10000100030001" + "41646d696e526573657421"} {
+			bl := len(body) / 2
+			p4 := (4 - bl%4) % 4
+			add(TTHCase{F: (bl + p4) / 4, BLen: bl + p4, Body: body, Total: bl + p4 + 30})
+		}
+	}
 	// keys that differ from a well-known key only by bytes a fast comparison may drop (NUL / space / 0xff before or
 	// after): keys of their own, alone and side by side with the key they resemble
 	for i, k := range dictKeys() {
@@ -870,7 +879,7 @@ func checkC06(c *Ctx) {
 }
 
 func checkC10(c *Ctx) {
-	c.rule = "MC: all 65536 header-size fields x {body present, one byte short, absent}; all 65536 flags; all 256 protocol ids and info ids; transform counts 0..255 x sizes; all 65536 magic words (MC_TTHeader). TRACE: the same families replayed on the real decoders (quick: size field stride 13, flags stride 31) plus random section orders, repeated sections, interleaved padding, count 0, size fields cutting into sections, every truncation point and perturbed structural bytes of valid frames; DecodeFromBytes, Decode over a bytes reader and Decode over fragmenting stream readers must succeed exactly when Parse does, with the same maps, HeaderLen = 14 + declared, PayloadLen - total = 4 - HeaderLen, ReadLen <= min(14 + declared, len); streams of several framed messages read back to back from one reader, with and without Release in between. BIG COLLECTIONS (Go monitor; the expectation is computed in Go from the data that was encoded, because TLC's map comparison is quadratic): well-formed header sections of 255..9000 entries, both decoders. Also hand-built sections repeating one key (4 bytes per pair, up to 16380 pairs): the maps hold the last value. Near-double dictionary keys in hand-built sections."
+	c.rule = "MC: all 65536 header-size fields x {body present, one byte short, absent}; all 65536 flags; all 256 protocol ids and info ids; transform counts 0..255 x sizes; all 65536 magic words (MC_TTHeader). TRACE: the same families replayed on the real decoders (quick: size field stride 13, flags stride 31) plus random section orders, repeated sections, interleaved padding, count 0, size fields cutting into sections, every truncation point and perturbed structural bytes of valid frames; DecodeFromBytes, Decode over a bytes reader and Decode over fragmenting stream readers must succeed exactly when Parse does, with the same maps, HeaderLen = 14 + declared, PayloadLen - total = 4 - HeaderLen, ReadLen <= min(14 + declared, len); streams of several framed messages read back to back from one reader, with and without Release in between. BIG COLLECTIONS (Go monitor; the expectation is computed in Go from the data that was encoded, because TLC's map comparison is quadratic): well-formed header sections of 255..9000 entries, both decoders. Also hand-built sections repeating one key (4 bytes per pair, up to 16380 pairs): the maps hold the last value. Near-double dictionary keys in hand-built sections. Padding runs of every length 0..40 in front of, between and behind sections."
 	c.MC("MC_TTHeader.tla", "MC_TTHeader.cfg", 4)
 	c.TraceCheck(famTTHC10, tthHostileCases(c))
 	bigHeaderMonitor(c, "big-C10")
